@@ -190,11 +190,21 @@ class Driver:
             self.st.tpc_begin(t, tid, status)
         return t
 
+    def tpc_finish(self, t):
+        """tpc_finish with the op-log positions of its invocation and
+        return recorded (C01)."""
+        fs = self.sim.fs
+        mark = {'invoke': len(fs.log), 'ret': None}
+        tid = self.st.tpc_finish(t)
+        mark['ret'] = len(fs.log)
+        self.marks.append(mark)
+        return tid
+
     def finish(self, t, mt):
         """vote + finish + model update + cheap checks."""
         st = self.st
         st.tpc_vote(t)
-        tid = st.tpc_finish(t)
+        tid = self.tpc_finish(t)
         return self.committed(tid, mt)
 
     def committed(self, tid, mt):
@@ -253,7 +263,7 @@ class Driver:
         if end == 'abortV':
             st.tpc_abort(t)
             return 'abort'
-        tid = st.tpc_finish(t)
+        tid = self.tpc_finish(t)
         # resolved records: check semantically, then adopt the stored bytes
         want_res = sorted({m.oid for m, w in mrecs if w[0] == 'resolved'})
         got_res = sorted(set(resolved or ()))
@@ -379,7 +389,7 @@ class Driver:
             st.tpc_abort(t)
             return 'abort'
         st.tpc_vote(t)
-        tid = st.tpc_finish(t)
+        tid = self.tpc_finish(t)
         mrecs = []
         # the records as written (a multi-undo can write several records of
         # one oid): taken from the storage's iterator, matched by position
@@ -465,7 +475,7 @@ class Driver:
         mt = MTxn(None, status, user, desc, self.ext_bytes(ext), mrecs,
                   'restore')
         st.tpc_vote(t)
-        got = st.tpc_finish(t)
+        got = self.tpc_finish(t)
         if got != tid:
             self.flag('restore-tid', 'tpc_finish returned %r for explicit '
                       'tid %r' % (got, tid))
